@@ -16,7 +16,7 @@ func init() {
 	property("C07",
 		"Static conformance of the structural part of format(): (a) conservation — in the main loop of FormatText every non-break word is written to the current line exactly once on every path, every reset of the current line is preceded by flushing it to the output, a break word flushes the line, writes one break code and one newline, the final line is flushed after the loop, and nothing but the word, a single space, the line content, the break codes and the newline byte is ever written; (b) break discipline shape — the automatic break (\\N) and the wrap choose between \\n and \\l by the same predicate over (current line number, numLines), the line number is incremented on every line end and reset by a paragraph break; (c) parameter binding — each named format() parameter reaches the FormatText parameter of the same meaning, font-config fallbacks read the field of the same name under the font id that is passed to FormatText; (d, e) the formatter writes no state and glyph widths are read from the font table by presence; (f) the break-code predicates the other clauses are stated with mean what their names say (isLineBreak = {\\n, \\l, \\p, \\N}, …), every word is scanned in the text whose line breaks were turned into spaces, and the -f / -fc / -l options reach the parser fields of their meaning. NOT decided (runtime arithmetic): that every line fits maxLineLength, that a word moves only when it does not fit, cursor-overlap accounting, and getNextWord's tokenisation. The word-to-table chain measures runes with the asked-for font and looks codes up under their own spelling (C07.e); fallbacks are taken exactly for non-positive values and the command-line font precedes the config default (C07.c); position, separator space, first-word flag (C07.a) and the escape flag (C07.d) follow their protocols; the font table is read-only (C17.g); config keys and struct tags agree (C11.d); integers are decoded with base 0 (C14.e).",
 		[]string{"pixel-width arithmetic and getNextWord tokenisation are not decided (DESIGN §6)", "go/ssa lowering is faithful to the source"},
-		"C07.a", "C07.b", "C07.c", "C07.d", "C07.e", "C07.f", "C06.b", "C09.b", "C17.f", "C19.c", "C17.g", "C14.e", "C11.d")
+		"C07.a", "C07.b", "C07.c", "C07.d", "C07.e", "C07.f", "C06.b", "C09.b", "C17.f", "C19.c", "C17.g", "C14.e", "C11.d", "C19.b")
 
 	register(&Rule{ID: "C07.d", Doc: "formatting is a function of (text, font table, parameters): the formatter writes no state; depth counters of the word scanner cannot go negative", Floor: 4, Run: c07d})
 	register(&Rule{ID: "C07.e", Doc: "a width is what the font table says for the glyph when it lists it (also when that is 0), else the font's default, else the fallback: presence decided by the comma-ok bit; cursor room reserved exactly on lines that show the prompt", Floor: 5, Run: c07e})
@@ -96,6 +96,50 @@ func c07a(c *Ctx) {
 			}
 		}
 		return false
+	}
+	// what is measured is what is written: every width asked for inside the loop is the width of
+	// the loop's word in the font FormatText was asked for (not of a trimmed or otherwise reworked
+	// copy, not in another font)
+	{
+		var fontPar *ssa.Parameter
+		for _, p := range fn.Params {
+			if p.Name() == "fontID" {
+				fontPar = p
+			}
+		}
+		if fontPar == nil {
+			// by position: the last string parameter
+			for _, p := range fn.Params {
+				if b, ok := p.Type().Underlying().(*types.Basic); ok && b.Kind() == types.String {
+					fontPar = p
+				}
+			}
+		}
+		nMeas := 0
+		for _, ci := range callsIn(fn) {
+			g := callee(ci)
+			if g == nil || !c.W.InRepo(g) || g.Signature.Recv() == nil || g.Signature.Results().Len() != 1 {
+				continue
+			}
+			if b, ok := g.Signature.Results().At(0).Type().Underlying().(*types.Basic); !ok || b.Kind() != types.Int {
+				continue
+			}
+			args := ci.Common().Args
+			if len(args) != 3 {
+				continue // (receiver, what, font)
+			}
+			nMeas++
+			key := fmt.Sprintf("measured/%s@%d", g.Name(), c.T(fn).callOrd[ci])
+			okFont := fontPar != nil && args[2] == ssa.Value(fontPar)
+			okWhat := true
+			if _, isStr := args[1].Type().Underlying().(*types.Basic); isStr && loopBody(head)[ci.Block()] {
+				if b := args[1].Type().Underlying().(*types.Basic); b.Kind() == types.String {
+					okWhat = args[1] == ssa.Value(wordPhi)
+				}
+			}
+			c.Check(okFont && okWhat, key, c.W.Pos(ci.Pos()), g.Name()+" measures the loop's word in the font that was asked for", g.Name()+" is asked for the width of "+pretty(c.term(fn, args[1]))+" in font "+pretty(c.term(fn, args[2]))+": expected the very word that is written, in the fontID FormatText was given — otherwise the line that is built is wider or narrower than the one that was measured")
+		}
+		c.Check(nMeas >= 2, "measured/sites", c.W.FuncPos(fn), fmt.Sprintf("%d width requests in FormatText", nMeas), fmt.Sprintf("only %d width requests found in FormatText", nMeas))
 	}
 	headFirst := head.Instrs[0]
 	toHead := func(in ssa.Instruction) bool { return in == headFirst }
@@ -1026,7 +1070,74 @@ func c07c(c *Ctx) {
 // compared with zero is only decremented where it is known to be positive: a stray closing
 // brace must not push the depth below zero, where "depth == 0" (spaces break words, escapes
 // are break codes) would never hold again.
+// c07dWordFound: the word scanner says "no more words" exactly when it has seen nothing but
+// blanks — the flag that lets a blank end a word (something other than a blank was seen) is the
+// flag whose absence makes the final return hand back the empty word. A break code that stands
+// alone at the end of the text has set that flag and is a word.
+func c07dWordFound(c *Ctx) {
+	fn := c.Fn("parser.FontConfig.getNextWord")
+	if fn == nil {
+		return
+	}
+	var spaceFlags []string
+	var empties []*ssa.Return
+	for _, r := range returnsOf(fn) {
+		if len(r.Results) != 2 {
+			continue
+		}
+		must := c.mustLits(fn, r.Block())
+		if k, isC := strConst(r.Results[1]); isC && k == "" {
+			empties = append(empties, r)
+			continue
+		}
+		inSpace := false
+		for _, l := range must {
+			if strings.HasSuffix(l, " == 32)") && strings.HasPrefix(l, "+(") {
+				inSpace = true
+			}
+		}
+		if inSpace {
+			for _, l := range must {
+				if strings.HasPrefix(l, "+phi(") {
+					spaceFlags = append(spaceFlags, flagName(l[1:]))
+				}
+			}
+		}
+	}
+	if len(empties) == 0 || len(spaceFlags) == 0 {
+		c.Bad("getNextWord/empty-word-return", c.W.FuncPos(fn), "cannot find the return of the empty word and the flag under which a blank ends a word")
+		return
+	}
+	for i, r := range empties {
+		ok := false
+		var got []string
+		for _, l := range c.mustLits(fn, r.Block()) {
+			if strings.HasPrefix(l, "-phi(") || strings.HasPrefix(l, "+phi(") {
+				got = append(got, l[:1]+flagName(l[1:]))
+				for _, f := range spaceFlags {
+					if l[0] == '-' && flagName(l[1:]) == f {
+						ok = true
+					}
+				}
+			}
+		}
+		c.Check(ok, fmt.Sprintf("getNextWord/empty-word-return#%d", i), c.W.Pos(r.Pos()), "the empty word is returned exactly when nothing but blanks was seen (the flag that lets a blank end a word)", fmt.Sprintf("the empty word is returned under %v, expected under the absence of the flag that lets a blank end a word (%v): a break code standing alone at the end of the text would be dropped", got, spaceFlags))
+	}
+}
+
+// flagName: the variable a phi term stands for (`phi(b3:foundNonSpace)#0` -> foundNonSpace).
+func flagName(t string) string {
+	if i := strings.Index(t, ":"); i >= 0 {
+		t = t[i+1:]
+	}
+	if j := strings.IndexAny(t, ")#!"); j >= 0 {
+		t = t[:j]
+	}
+	return t
+}
+
 func c07d(c *Ctx) {
+	c07dWordFound(c)
 	ft := c.Fn("parser.FontConfig.FormatText")
 	if ft == nil {
 		return
